@@ -1,6 +1,7 @@
 package main
 
 import (
+	"regexp"
 	"fmt"
 	"sort"
 	"strings"
@@ -699,6 +700,19 @@ func runOracle(prop string, c drv.SCase, x *drv.SRun, obs []drv.SObs, snaps []st
 			for j, r := range o.Resps {
 				if len(r.GetResult()) == 0 && j < len(st.Ops) {
 					heldOf[st.Ops[j].ID] = st.S
+				}
+			}
+			// also from the server itself: what was held before this request (the empty response of a held operation
+			// is lost when a later operation of the same request ends the RPC)
+			if m := regexp.MustCompile(`held=\[([0-9 ]*)\]`).FindStringSubmatch(snaps[i]); m != nil {
+				for _, f := range strings.Fields(m[1]) {
+					var id uint64
+					fmt.Sscan(f, &id)
+					if ow, ok := owner[id]; ok {
+						if _, known := heldOf[id]; !known {
+							heldOf[id] = ow
+						}
+					}
 				}
 			}
 			for _, r := range o.Resps {
